@@ -134,13 +134,21 @@ fn run_case(idx: usize, case: &Value, want_trace: bool, evs: &HashSet<String>) -
     let expected = norm_graph(&case["graphs"][kind]);
     let res = std::panic::catch_unwind(std::panic::AssertUnwindSafe(|| build(&world, kind_of(kind), &world.roots, &bo)));
     out.builds += 1;
+    let model_diverges = case["graphs"][kind].get("diverged").is_some();
     let g = match res {
       Ok(g) => g,
       Err(e) => {
-        out.mismatches.push(json!({"case": idx, "kind": kind, "what": "panic", "msg": panic_msg(e), "prop": ["C03"]}));
+        let msg = panic_msg(e);
+        // the as-coded model predicts that this build never ends (finding F17): reported with its own signature
+        let what = if msg.contains("load budget exceeded") && model_diverges { "diverges-as-modelled" } else { "panic" };
+        out.mismatches.push(json!({"case": idx, "kind": kind, "what": what, "msg": msg, "prop": ["C03"]}));
         continue;
       }
     };
+    if model_diverges {
+      out.mismatches.push(json!({"case": idx, "kind": kind, "what": "model-diverges-code-terminates", "prop": ["DRIFT"]}));
+      continue;
+    }
     let observed = graph_json(&world, &g);
     let e1 = strip(&expected, &["sch", "ctx", "ref"]);
     let o1 = strip(&observed, &["sch", "ctx", "ref"]);
@@ -152,6 +160,24 @@ fn run_case(idx: usize, case: &Value, want_trace: bool, evs: &HashSet<String>) -
     if !pending_specifiers(&g).is_empty() {
       out.mismatches.push(json!({"case": idx, "kind": kind, "what": "pending", "specs": pending_specifiers(&g), "prop": ["C03"]}));
     }
+    // secondary builds of worlds with implicit redirects may not terminate either (finding F17): they are caught, the
+    // event is dropped and the divergence reported with the world's own signature
+    let has_fin = world.mods.values().any(|m| m.fin.as_deref().is_some_and(|f| f != "-"));
+    let mut secondary_diverged = false;
+    let mut guarded = |f: &mut dyn FnMut()| {
+      if !has_fin {
+        f();
+        return;
+      }
+      if let Err(e) = std::panic::catch_unwind(std::panic::AssertUnwindSafe(|| f())) {
+        let msg = panic_msg(e);
+        if msg.contains("load budget exceeded") {
+          secondary_diverged = true;
+        } else {
+          std::panic::resume_unwind(Box::new(msg));
+        }
+      }
+    };
     if want_trace {
       let before = out.trace.len();
       trace_for_graph(&world, &g, kind, &id, &mut out.trace, evs);
@@ -168,17 +194,21 @@ fn run_case(idx: usize, case: &Value, want_trace: bool, evs: &HashSet<String>) -
         let r = m.specifier().clone();
         let seg = g.segment(&[r.clone()]);
         let rid = world.id_of(r.as_str());
-        let direct = build(&world, kind_of(kind), &[rid.clone()], &bo);
-        out.trace.push(json!({"ev": "segment", "roots": [rid], "seg": graph_json(&world, &seg), "direct": graph_json(&world, &direct)}));
+        guarded(&mut || {
+          let direct = build(&world, kind_of(kind), &[rid.clone()], &bo);
+          out.trace.push(json!({"ev": "segment", "roots": [rid], "seg": graph_json(&world, &seg), "direct": graph_json(&world, &direct)}));
+        });
       }
       // C19: add each specifier as a second root incrementally / at once; rebuild with known roots
       for r2 in world.mods.keys().filter(|_| evs.contains("incr")) {
-        let mut inc = g.clone();
-        build_on(&world, &mut inc, &[r2.clone()], &bo);
-        let mut roots = world.roots.clone();
-        roots.push(r2.clone());
-        let once = build(&world, kind_of(kind), &roots, &bo);
-        out.trace.push(json!({"ev": "incr", "r2": r2, "inc": graph_json(&world, &inc), "once": graph_json(&world, &once)}));
+        guarded(&mut || {
+          let mut inc = g.clone();
+          build_on(&world, &mut inc, &[r2.clone()], &bo);
+          let mut roots = world.roots.clone();
+          roots.push(r2.clone());
+          let once = build(&world, kind_of(kind), &roots, &bo);
+          out.trace.push(json!({"ev": "incr", "r2": r2, "inc": graph_json(&world, &inc), "once": graph_json(&world, &once)}));
+        });
       }
       if evs.contains("incr") {
         let mut again = g.clone();
@@ -188,6 +218,9 @@ fn run_case(idx: usize, case: &Value, want_trace: bool, evs: &HashSet<String>) -
       if out.trace.len() == before + 1 {
         out.trace.pop(); // a lone reset
       }
+    }
+    if secondary_diverged {
+      out.mismatches.push(json!({"case": idx, "kind": kind, "what": "diverges-secondary-build", "msg": "load budget exceeded in a build with other roots", "prop": ["C03"]}));
     }
     // C19 reload history: build, edit one source, reload exactly the edited specifier
     if let Some(edit) = case.get("edit").filter(|e| e["s"].as_str().is_some_and(|s| s != "-")) {
@@ -280,6 +313,14 @@ fn cmd_replay_core(args: &[String]) -> i32 {
 }
 
 fn main() {
+  // panics of the code under test are data (caught and reported per case); keep stderr readable
+  let default_hook = std::panic::take_hook();
+  std::panic::set_hook(Box::new(move |info| {
+    let msg = info.payload().downcast_ref::<String>().cloned().or_else(|| info.payload().downcast_ref::<&str>().map(|s| s.to_string())).unwrap_or_default();
+    if !msg.contains("load budget exceeded") {
+      default_hook(info);
+    }
+  }));
   let args: Vec<String> = std::env::args().collect();
   let code = match args.get(1).map(|s| s.as_str()) {
     Some("replay-core") => cmd_replay_core(&args),
